@@ -115,17 +115,18 @@ mod c15 {
         vk_end!();
     }
     // ---- getter over a history: value of the history at (now + offset), restamped with now
-    pub struct Hist { pub updates: u32 }
+    // the history stamps its data with its OWN (arbitrary) time, not with the requested one: the adapter must restamp with `now`
+    pub struct Hist { pub updates: u32, pub stamp: i64 }
     fn hval(t: i64) -> i64 { t ^ 0x5A5A_5A5A }
     impl History<i64, E> for Hist {
-        fn get(&self, time: Time) -> Option<Datum<i64>> { if time.0 < 0 { None } else { Some(Datum::new(time, hval(time.0))) } }
+        fn get(&self, time: Time) -> Option<Datum<i64>> { if time.0 < 0 { None } else { Some(Datum::new(Time(self.stamp), hval(time.0))) } }
     }
     impl Updatable<E> for Hist { fn update(&mut self) -> NothingOrError<E> { self.updates += 1; Ok(()) } }
     fn b60(x: i64) -> bool { x > -(1i64 << 60) && x < (1i64 << 60) }
     #[kani::proof]
     #[kani::unwind(@UNW@)]
     fn c15_getter_from_history() {
-        let mut h = Hist { updates: 0 };
+        let mut h = Hist { updates: 0, stamp: sym_time() };
         let now0 = sym_time();
         let mut clk = Clock(Ok(now0));
         let rc = ptr_ref(&mut clk);
@@ -165,7 +166,7 @@ mod c15 {
     }
     #[kani::proof]
     fn c15_history_ctor_clock_error() {
-        let mut h = Hist { updates: 0 };
+        let mut h = Hist { updates: 0, stamp: 0 };
         let e: E = kani::any();
         let mut clk = Clock(Err(e));
         let rc = ptr_ref(&mut clk);
